@@ -89,7 +89,7 @@ Proof. repeat split; try (intros [[|]|]; reflexivity); reflexivity. Qed.
 Lemma req_from_none k : forall t, incl (req_from k t) (req_from k None).
 Proof.
   destruct req_tables as (A1 & A2 & A3 & A4 & O1 & O2 & O3 & O4 & A5 & O5 & O6).
-  induction k as [R|k IH y|k IH|k IH y|k IH|k IH sel]; intros t; cbn [req_from].
+  induction k as [R|k IH y|k IH|k IH y|k IH|k IH sel|k IH c0]; intros t; cbn [req_from].
   - apply incl_refl.
   - rewrite !A1, A5. apply incl_app; [apply incl_appl, incl_refl | apply incl_appr].
     destruct t as [[|]|]; [rewrite A2 | rewrite A3 | rewrite A5]; try apply incl_refl. apply IH.
@@ -100,6 +100,7 @@ Proof.
     + rewrite O5, O6. apply incl_refl.
   - rewrite !O4. apply IH.
   - apply incl_app; [apply incl_appl, incl_refl | apply incl_appr, IH].
+  - rewrite !A4. apply incl_app; [apply incl_appl, incl_refl | apply incl_appr, IH].
 Qed.
 
 (* ---------------------------------------------------------------- SeenSet *)
@@ -359,7 +360,7 @@ Section DF.
     f_equal; try (apply flat_map_ext; intros p; now rewrite bind_selected_eq).
   Qed.
 
-  Definition is_leaf (c : cond) : bool := match c with CAnd _ _ | CElseIf _ _ | CSub _ _ => false | _ => true end.
+  Definition is_leaf (c : cond) : bool := match c with CAnd _ _ | CElseIf _ _ | CSub _ _ | CForAll _ _ => false | _ => true end.
   Lemma evalD_leaf c k b ywf s : is_leaf c = true -> evalD c k b ywf s = (eval c b ywf, s).
   Proof. destruct c; cbn [is_leaf]; try discriminate; reflexivity. Qed.
   Lemma evalDs_leaf c k ywf : is_leaf c = true -> forall bs s, evalDs c k bs ywf s = (flat_map (fun b => eval c b ywf) bs, s).
@@ -426,7 +427,8 @@ Section DF.
   Lemma evalD_ok c : basic c = true -> forall k b ywf s r, in_dom b -> In r (fst (evalD c k b ywf s)) -> row_ok c b r.
   Proof.
     induction c as [o l r0|t inv|x IHx y IHy|x IHx y IHy|u0 c0 IH|sel c0 IH]; intros B k b ywf s r D H;
-      try (rewrite evalD_leaf in H by reflexivity; cbn [fst] in H; eapply eval_row_ok; eassumption).
+      try (rewrite evalD_leaf in H by reflexivity; cbn [fst] in H; eapply eval_row_ok; eassumption);
+      try (cbn [EvalPure_Facts.basic] in B; discriminate B).
     - (* AND *)
       cbn [EvalPure_Facts.basic] in B. apply andb_prop in B as [Bx By]. rewrite evalD_and in H. cbn [fst] in H.
       apply in_smap in H as (p & st' & Hp & Hr). pose proof (IHx Bx _ _ _ _ _ D Hp) as (Dp & Ep & Tp).
@@ -755,7 +757,7 @@ Section DF.
     forall b e f, In b bs -> target c ywf b e f -> covered k (fst (evalDs c k bs ywf DL)) e f.
   Proof.
     induction c as [o l r0|t inv|x IHx y IHy|x IHx y IHy|u0 c0 IH|sel c0 IH]; intros B k bs ywf Dbs b e f Hb T;
-      try (exact (cover_leaf _ k ywf B eq_refl bs b e f Hb T)).
+      try (exact (cover_leaf _ k ywf B eq_refl bs b e f Hb T)); try (cbn [EvalPure_Facts.basic] in B; discriminate B).
     - (* ---------------- AND ---------------- *)
       pose proof B as B'. cbn [EvalPure_Facts.basic] in B'. apply andb_prop in B' as [Bx By].
       destruct T as (A & V & F & Y). cbn [Spec.isat] in F.
@@ -970,10 +972,17 @@ Section DF.
   Definition Fresh (s : dst) (b : binding) : Prop := forall c, In c (entries s) -> Incomp c b.
 
   Fixpoint top_of (k : ctx) : list key :=
-    match k with KTop R => R | KAndL k' _ | KAndR k' | KElseL k' _ | KElseR k' | KSub k' _ => top_of k' end.
+    match k with
+    | KTop R => R
+    | KAndL k' _ | KAndR k' | KElseL k' _ | KElseR k' | KSub k' _ => top_of k'
+    | KForAll k' c => cvars c ++ top_of k'       (* (Generated.forall_adds_condition_variables) *)
+    end.
   Lemma req_from_top k : forall t, incl (top_of k) (req_from k t).
   Proof.
-    induction k as [R|k IH y|k IH|k IH y|k IH|k IH sel]; intros t; cbn [req_from top_of]; try apply incl_refl; try (apply incl_appr, IH). apply IH.
+    induction k as [R|k IH y|k IH|k IH y|k IH|k IH sel|k IH c0]; intros t; cbn [req_from top_of]; try apply incl_refl; try (apply incl_appr, IH).
+    - apply IH.
+    - assert (E : forall_adds_condition_variables = true) by reflexivity. rewrite E.
+      apply incl_app; [apply incl_appl, incl_refl | apply incl_appr, IH].
   Qed.
 
   Lemma exists_valid_ext b : in_dom b -> exists e, valid e /\ agreesb b e = true.
@@ -1189,7 +1198,8 @@ Section DF.
   Theorem evalD_no_dup c : basic c = true -> forall k ywf, incl U (top_of k) -> operand_ok c k ywf.
   Proof.
     induction c as [o l r0|t inv|x IHx y IHy|x IHx y IHy|u0 c0 IH|sel c0 IH]; intros B k ywf IU b s Db HF;
-      try (rewrite evalD_leaf by reflexivity; cbn [fst snd]; split; [reflexivity | intros c Hc; now left]).
+      try (rewrite evalD_leaf by reflexivity; cbn [fst snd]; split; [reflexivity | intros c Hc; now left]);
+      try (cbn [EvalPure_Facts.basic] in B; discriminate B).
     - (* AND *)
       pose proof B as B'. cbn [EvalPure_Facts.basic] in B'. apply andb_prop in B' as [Bx By].
       rewrite evalD_and. cbn [fst snd].
@@ -1280,3 +1290,31 @@ Section DF.
     now rewrite E.
   Qed.
 End DF.
+
+(* ================================================================================================================
+   for_all.  Every pass (one per universal value) evaluates the condition from a FRESH de-duplication state, and for_all requires
+   from its condition every variable of the condition (Generated.forall_adds_condition_variables - the passes are intersected on
+   them): inside a pass nothing is ever dropped, so the de-duplicating evaluator computes for_all exactly as the P-model does,
+   whose meaning is C10's.  (Without that requirement the rows of a pass were keyed on what the query SELECTS and a for_all over a
+   condition with an unselected free variable lost answers: known_findings.json.) *)
+Lemma inter_ext (p1 p2 : val -> list binding) us : (forall v, In v us -> p1 v = p2 v) -> inter p1 us = inter p2 us.
+Proof.
+  intros H. destruct us as [|v0 vs]; [reflexivity|]. cbn [inter]. rewrite (H v0 (or_introl eq_refl)).
+  assert (G : forall acc, fold_left (fun acc v => match acc with [] => [] | _ => filter (fun d => existsb (binding_eqb d) (p1 v)) acc end) vs acc =
+                         fold_left (fun acc v => match acc with [] => [] | _ => filter (fun d => existsb (binding_eqb d) (p2 v)) acc end) vs acc).
+  { assert (Hvs : forall v, In v vs -> p1 v = p2 v) by (intros v Hv; apply H; now right). clear H.
+    induction vs as [|v vs IH]; intros acc; [reflexivity|]. cbn [fold_left]. rewrite (Hvs v (or_introl eq_refl)).
+    apply IH. intros w Hw. apply Hvs. now right. }
+  apply G.
+Qed.
+
+Theorem forall_no_dedup h dom U u c' k b ywf s :
+  (forall x, In x U -> NoDup (dom x)) -> (forall x, In x U -> dom x <> []) -> basic U c' = true -> incl U (cvars c') ->
+  in_dom dom b ->
+  evalD h dom (CForAll u c') k b ywf s = (eval h dom (CForAll u c') b ywf, s).
+Proof.
+  intros ND NE B IU Db. cbn [Dedup.evalD EvalPure.eval]. f_equal. f_equal. apply inter_ext. intros v Hv.
+  assert (Dv : in_dom dom (bind b u v)) by (apply in_dom_bind; assumption).
+  destruct (evalD_no_dup h dom U ND NE c' B (KForAll k c') false (incl_appl _ IU) (bind b u v) DL Dv) as [E _]; [intros c0 []|].
+  now rewrite E.
+Qed.
